@@ -183,6 +183,11 @@ func (b *RecordBatch) decode(pd packetDecoder) (err error) {
 	if err != nil {
 		return err
 	}
+	if recBuffer == nil {
+		// decode() skips a nil buffer altogether; a payload that decompresses to nothing
+		// must still be checked against the number of records the batch announces
+		recBuffer = []byte{}
+	}
 
 	b.recordsLen = len(recBuffer)
 	err = decode(recBuffer, recordsArray(b.Records))
